@@ -91,7 +91,7 @@ def run(rep, tier):
     quick = tier == "quick"
     wd = work_dir("C06", "run", clean=True)
     sfx = "small" if quick else "deep"
-    nparts = 2 if quick else 4
+    nparts = 3 if quick else 4
     rep.rule = ("TLC explores every goal with <= %d connectives (<= 1 binary) over 2 variables built by Negate / Quantify(all, exists) / "
                 "Combine(conj, disj, implies-left, implies-right, iff) from the atom shapes (x < 0, 0 <= x, x < y + 1, x - 1 < x, "
                 "(x - y) + y = x, ...) at nat, at int and at nat seen through of_nat::nat=>real, i.e. with binders in positive and negative "
@@ -100,9 +100,13 @@ def run(rep, tier):
                 "deterministic families (truncated minus, every order relation, abs/min/max/if, of_nat, real division, predicates/sets "
                 "over 'a, bool, true/false, xor, intervals, EQUALITY AT FUNCTION TYPES between function variables / lambda terms / partial "
                 "applications as premise and conclusion, positive and negated) under every single binder and negation, the repository's "
-                "own test goals, seeded random closed goals; HISTORY: goals whose conclusion cannot be translated are tried with premises, "
+                "own test goals, quotients of numeral expressions, pairs of quantifiers with a nested quantifier sharing the atom of the outer "
+                "variable, seeded random closed goals; a sample of all goals is also tried under a Z3 resource limit that makes Z3 give up "
+                "(an 'unknown' answer proves nothing); HISTORY: goals whose conclusion cannot be translated are tried with premises, "
                 "and every step that raises is followed in the same process by its premises as goals of their own; SymPy (every interval "
-                "goal asked on the open and on the closed interval with the same end points one after the other, in both orders): polynomial identities and off-by-one non-identities as = and ~=, rational functions, inequalities, "
+                "goal asked on the open and on the closed interval with the same end points one after the other, in both orders; a second "
+                "variable in cancelling denominators; numeral subtraction at nat/int/real; sqrt / exp / log goals judged through exact "
+                "squares and signs): polynomial identities and off-by-one non-identities as = and ~=, rational functions, inequalities, "
                 "interval premises with grid end points, seeded random rewritings. Non-trivial = the step ACCEPTED the goal and the "
                 "TLA+ meaning decided it (T or F) under at least one assignment; distinct by (solver, goal, premises)." % (3 if quick else 4))
     rep.assumptions = [
@@ -112,8 +116,12 @@ def run(rep, tier):
         "C06_Sem.tla and checked by TLC (B vs 2B) on the whole universe; other such binders make the goal 'not examined'",
         "function variables over number types range over the 4 tables on {0, 1} with values {0, 1} extended by 0 (a sub-family of the "
         "functions: sound for refutation); equality of lambda terms over number types is only refuted, never confirmed",
-        "transcendental functions, functions of two arguments, more than 4 free variables: recorded, never judged",
-        "Z3 is given 1.5 s per goal by the driver (an unanswered goal counts as not solved)",
+        "exp / log / non-square sqrt have no exact value: atoms about them are judged only when the possible SIGNS of both sides decide "
+        "them (exp > 0, sqrt sign-preserving, squares >= 0); sin, cos, pi, real powers with non-natural exponents, functions of two "
+        "arguments, more than 4 free variables, goals beyond the evaluation budget: recorded, never judged",
+        "real variables range over 9 rational grid points and the values of the closed real sub-terms named in the goal",
+        "Z3 is interrupted by the driver after 2.5 s per goal (z3wrapper.solve has no time limit); such goals are recorded as "
+        "divergences (acc = timeout), never as accepted",
         "TLC/SANY, lib/Rat.tla exact rationals within 31 bits, the structural projection in harness/drivers/c06.py, CPython",
     ]
     vec = wd / "vectors.ndjson"
@@ -204,6 +212,9 @@ def run(rep, tier):
         k = "%s/%s" % (e["solver"], e["acc"])
         oc[k] = oc.get(k, 0) + 1
     rep.notes["outcomes"] = oc
+    rep.notes["z3_interrupted_by_watchdog"] = sum(1 for e in ev_vec + evr if e["acc"] == "timeout")
+    rep.notes["z3_giveup_route"] = {a: sum(1 for e in ev_vec + evr if e.get("route") == "giveup" and e["acc"] == a)
+                                    for a in ("yes", "no", "exc", "timeout")}
     rep.notes["not_judged_transcendental"] = sum(1 for e in evs if e["src"].startswith("transcendental"))
     tr = rep.notes["traces"]
     require(tr["z3_universe"]["nontrivial"] >= (500 if quick else 2000), "C06: too few examined accepted Z3 goals of the universe (vacuity guard)")
